@@ -12,13 +12,13 @@ LEVEL_TEXT = ("Theorems (Lean 4, all line lists, no size bound): cache_inv -- th
               "entry k->p is the walk-back answer for indent k over the processed lines and 0 < k <= max_indent; holds initially, preserved "
               "by every iteration, and under it the chosen parent is the specified one); linkByIndent_eq_spec -- pass 1 returns one parent "
               "per line and parent(i) = specParent(i): i itself if indent 0 or a comment under a deeper line, else the largest j < i that is a "
-              "config line with smaller indent, i if none (nearestShallower_some/_none state that reading of the spec); children_eq_spec / "
+              "config line with smaller indent, i if none (specParent_spec, nearestShallower_some/_none state that reading of the spec); children_eq_spec / "
               "linkByIndent_children -- derived child lists = specified children; parse_links_eq_spec -- for lists without banner start and "
               "(ios) macro start, ignore_blank_lines off, the final tree after bootstrap + commit has texts = input, parents = spec, children = "
-              "spec; links_syntax_independent / parse_links_syntax_independent -- links depend on the configuration only through the comment "
+              "spec; parse_links_eq_spec_ignore_blank -- the same with ignore_blank_lines on, over the non-blank lines; links_syntax_independent / parse_links_syntax_independent -- links depend on the configuration only through the comment "
               "delimiters, not the syntax. Tied to the code by exhaustive small patterns and random configs.")
 LEVEL_NOTE = ("Trusted: Lean kernel, standard axioms, the harness. The final-tree theorems exclude banner/macro starts as the property does "
-              "(hypotheses on the line list) and ignore_blank_lines; the typed-model factory is not modelled (links compared by the correspondence "
+              "(hypotheses on the line list); the typed-model factory is not modelled (links compared by the correspondence "
               "with factory on and off).")
 ASSUMPTIONS = ["line texts contain no banner / macro start (generator-enforced)"]
 TRUSTED = []
